@@ -305,15 +305,17 @@ theorem dtm_roundtrip_secs (d : DateTime) (hv : d.valid = true) (dst : Bool) :
   unfold mkDateTime
   simp [hv, Except.map]
 
-/-- packed fault-log timestamps: every second of the years the 7-bit field can carry
-    through the library's own text form (1–99), symbolically -/
-theorem dts_roundtrip (d : DateTime) (hv : d.valid = true) (hy : d.year ≤ 99) :
+/-- packed fault-log timestamps: every second of the century 2000–2099 (the window of the
+    library's two-digit-year text form), symbolically -/
+theorem dts_roundtrip (d : DateTime) (hv : d.valid = true) (hy0 : 2000 ≤ d.year) (hy : d.year ≤ 2099) :
     hexToDts (hexFromDts (some d)) = .ok (some d) := by
   obtain ⟨h1, h2, h3, h4, h5, h6, h7, h8, h9⟩ := valid_bounds d hv
   unfold hexFromDts
-  have hy' : d.year % 100 = d.year := by omega
-  simp only [hy']
-  generalize hx : d.year * 2 ^ 24 + d.month * 2 ^ 36 + d.day * 2 ^ 31 + d.hour * 2 ^ 19 +
+  simp only
+  obtain ⟨y, hy1, hy2⟩ : ∃ y, d.year % 100 = y ∧ d.year = 2000 + y := ⟨d.year % 100, rfl, by omega⟩
+  rw [hy1]
+  have hy3 : y < 100 := by omega
+  generalize hx : y * 2 ^ 24 + d.month * 2 ^ 36 + d.day * 2 ^ 31 + d.hour * 2 ^ 19 +
     d.minute * 2 ^ 13 + d.second * 2 ^ 7 = x
   have hxlt : x < 16 ^ 12 := by omega
   have hlen : (fmtHex 12 x).length = 12 := fmtHex_length 12 x (by decide) hxlt
@@ -325,7 +327,7 @@ theorem dts_roundtrip (d : DateTime) (hv : d.valid = true) (hy : d.year ≤ 99) 
   unfold hexToDts
   rw [if_neg (by simp [hlen]), if_neg hne, hof]
   simp only
-  have e1 : x / 2 ^ 24 % 128 = d.year := by omega
+  have e1 : 2000 + x / 2 ^ 24 % 128 = d.year := by rw [hy2]; omega
   have e2 : x / 2 ^ 36 % 16 = d.month := by omega
   have e3 : x / 2 ^ 31 % 32 = d.day := by omega
   have e4 : x / 2 ^ 19 % 32 = d.hour := by omega
@@ -353,7 +355,7 @@ theorem id_enc_dec (t n : Nat) (ht : t ≤ 63) (hn : n < 2 ^ 18) (hne : ¬ (t = 
     -- a string of six hex digits has no white space to strip
     have hall : ∀ c ∈ toHexW 6 (t * 2 ^ 18 + n), isSpacePy c = false := by
       intro c hc
-      simp only [toHexW, List.nil_append, List.append_assoc, List.cons_append, List.mem_cons,
+      simp only [toHexW, List.nil_append, List.cons_append, List.mem_cons,
         List.not_mem_nil, or_false] at hc
       have hd : ∀ k, k < 16 → isSpacePy (hexDigit k) = false := by
         intro k hk
